@@ -6,10 +6,12 @@
 package main
 
 import (
+	"bytes"
 	"encoding/binary"
 	"fmt"
 	"math"
 	"os"
+	"sort"
 	"sync/atomic"
 	"time"
 
@@ -64,7 +66,7 @@ type Step struct {
 }
 
 type In struct {
-	Kind  string `json:"kind"`  // seq | pfxff | mget | dup | policy | mopfull | moppartial
+	Kind  string `json:"kind"`  // seq | pfxff | mget | dup | policy | bigdup | bseek | mopfull | moppartial
 	Store string `json:"store"` // gtreap | boltdb | goleveldb | moss | metrics
 	Mo    string `json:"mo"`    // cat | catnp | udc
 	Steps []Step `json:"steps,omitempty"`
@@ -185,9 +187,10 @@ func uvar(v uint64) []byte {
 }
 
 // key pool of a case: small, with shared prefixes; udc keys look like dictionary rows ('d' field term).
-func (g *genCtx) makePool() {
+func (g *genCtx) makePool() { g.makePoolN(g.r.Range(4, 11)) }
+
+func (g *genCtx) makePoolN(n int) {
 	r := g.r
-	n := r.Range(4, 11)
 	minLen := 0
 	if g.store == "boltdb" {
 		minLen = 1 // bbolt rejects empty keys ("key required")
